@@ -100,7 +100,8 @@ Definition read_bbox (s : stream) : outcome (bbox * stream) :=
   | _ => Err Eof
   end.
 
-(* BoundingBox::from_points — assert!(points.len() > 0) *)
+(* BoundingBox::from_points — assert!(points.len() > 0); not reached with an empty list from the
+   WOFF2 decoder (Proofs/Woff2Total.v: a decoded simple glyph has at least one point) *)
 Definition bbox_add (b : bbox) (p : point) : bbox :=
   {| bb_xmin := Z.min (p_x p) (bb_xmin b); bb_ymin := Z.min (p_y p) (bb_ymin b);
      bb_xmax := Z.max (p_x p) (bb_xmax b); bb_ymax := Z.max (p_y p) (bb_ymax b) |}.
@@ -126,7 +127,7 @@ Record tglyf := {
   tg_composite : stream; tg_bitmap : list Z; tg_bbox : stream; tg_instr : stream }.
 
 (* impl ReadBinary for TransformedGlyphTable *)
-Definition read_tglyf (m : mode) (s : stream) : outcome tglyf :=
+Definition read_tglyf (s : stream) : outcome tglyf :=
   '(_version, s) <- rd_u32 s ;;
   '(num_glyphs, s) <- rd_u16 s ;;
   '(index_format, s) <- rd_u16 s ;;
@@ -145,7 +146,8 @@ Definition read_tglyf (m : mode) (s : stream) : outcome tglyf :=
   (* 4 * ((usize::from(num_glyphs) + 31) / 32) *)
   let bitmap_len := 4 * ((num_glyphs + 31) / 32) in
   '(bitmap, s) <- rd_slice bitmap_len s ;;
-  rest <- usub m bbox_size bitmap_len ;;
+  (* bbox_stream_size.checked_sub(bbox_bitmap_length).ok_or(ParseError::BadEof)? *)
+  rest <- (if bitmap_len <=? bbox_size then Ok (bbox_size - bitmap_len) else Err Eof) ;;
   '(bboxs, s) <- rd_slice rest s ;;
   '(instr, s) <- rd_slice instruction_size s ;;
   Ok {| tg_num_glyphs := num_glyphs; tg_index_format := index_format;
@@ -157,21 +159,23 @@ Record gstreams := {
   s_nc : stream; s_np : stream; s_fl : stream; s_gl : stream;
   s_comp : stream; s_bbox : stream; s_ins : stream }.
 
-(* Woff2GlyfTable::compute_end_pts_of_contours: n_points: u16, `+=` and `- 1` in default mode *)
-Fixpoint end_pts_loop (m : mode) (n : nat) (np : stream) (n_points : Z)
+(* Woff2GlyfTable::compute_end_pts_of_contours: n_points: u16,
+   n_points = n_points.checked_add(n_contours).ok_or(ParseError::BadValue)?  and
+   n_points.checked_sub(1).ok_or(ParseError::BadValue) *)
+Fixpoint end_pts_loop (n : nat) (np : stream) (n_points : Z)
   : outcome (list Z * Z * stream) :=
   match n with
   | O => Ok ([], n_points, np)
   | S k =>
       '(c, np1) <- read_packed_u16 np ;;
-      n1 <- m_add m TU16 n_points c ;;
-      e <- m_sub m TU16 n1 1 ;;
-      '(rest, tot, np2) <- end_pts_loop m k np1 n1 ;;
+      n1 <- (if n_points + c <=? 65535 then Ok (n_points + c) else Err BadValue) ;;
+      e <- (if 1 <=? n1 then Ok (n1 - 1) else Err BadValue) ;;
+      '(rest, tot, np2) <- end_pts_loop k np1 n1 ;;
       Ok (e :: rest, tot, np2)
   end.
-Definition compute_end_pts (m : mode) (np : stream) (number_of_contours : Z)
+Definition compute_end_pts (np : stream) (number_of_contours : Z)
   : outcome (list Z * Z * stream) :=
-  end_pts_loop m (Z.to_nat number_of_contours) np 0.
+  end_pts_loop (Z.to_nat number_of_contours) np 0.
 
 (* the fold in decode_coordinates: data <<= 8 (u32: high bits fall off); data |= byte *)
 Definition coord_data (bytes : list Z) : Z :=
@@ -185,7 +189,7 @@ Definition xy_triplet (flag : Z) : outcome xytriplet :=
   end.
 
 (* the `for flag in flags.iter()` loop of decode_simple_glyph (step 3);
-   prev_point.0 + point.0 is i16 addition in default mode *)
+   prev_point.0.wrapping_add(point.0) is i16 addition modulo 2^16 in every build *)
 Fixpoint decode_points (m : mode) (flags : list Z) (gl : stream) (px py : Z)
   : outcome (list point * stream) :=
   match flags with
@@ -196,8 +200,8 @@ Fixpoint decode_points (m : mode) (flags : list Z) (gl : stream) (px py : Z)
       let data := coord_data bytes in
       dx <- xy_dx m t data ;;
       dy <- xy_dy m t data ;;
-      x <- m_add m TI16 px dx ;;
-      y <- m_add m TI16 py dy ;;
+      let x := to_signed 16 (px + dx) in
+      let y := to_signed 16 (py + dy) in
       '(rest, gl2) <- decode_points m fs gl1 x y ;;
       Ok ({| p_on := Z.land f 128 =? 0; p_x := x; p_y := y |} :: rest, gl2)
   end.
@@ -205,7 +209,7 @@ Fixpoint decode_points (m : mode) (flags : list Z) (gl : stream) (px py : Z)
 (* Woff2GlyfTable::decode_simple_glyph; the bounding box is filled in by the caller *)
 Definition decode_simple_glyph (m : mode) (st : gstreams) (number_of_contours : Z)
   : outcome (list Z * list Z * list point * gstreams) :=
-  '(end_pts, n_points, np) <- compute_end_pts m (s_np st) number_of_contours ;;
+  '(end_pts, n_points, np) <- compute_end_pts (s_np st) number_of_contours ;;
   '(flags, fl) <- rd_slice n_points (s_fl st) ;;
   '(points, gl) <- decode_points m flags (s_gl st) 0 0 ;;
   '(instruction_length, gl) <- read_packed_u16 gl ;;
@@ -305,7 +309,7 @@ Fixpoint decode_glyphs (m : mode) (bitmap : list Z) (n : nat) (i : Z) (st : gstr
 
 (* Woff2GlyfTable::read_dep, transformed branch *)
 Definition read_woff2_glyf (m : mode) (s : stream) : outcome (list glyph) :=
-  t <- read_tglyf m s ;;
+  t <- read_tglyf s ;;
   decode_glyphs m (tg_bitmap t) (Z.to_nat (tg_num_glyphs t)) 0
     {| s_nc := tg_ncontour t; s_np := tg_npoints t; s_fl := tg_flags t; s_gl := tg_glyphs t;
        s_comp := tg_composite t; s_bbox := tg_bbox t; s_ins := tg_instr t |}.
